@@ -91,6 +91,9 @@ type c12Op struct {
 	ChildHash          []byte
 	ChildOff, ChildLen int
 	Faults             map[int]*c12Fault // by shard slot
+	// Cancel > 0 (FindMissing, faults profile): the caller gives up after that
+	// many scheduling steps
+	Cancel int
 	Calls              []*c12Call
 	Epoch              *c12Epoch
 }
@@ -399,7 +402,8 @@ func (w *c12World) matchError(op *c12Op, got error) {
 			continue
 		}
 		anyErr = true
-		if from == nil && call.ErrTag != "" && strings.Contains(st.Message(), call.ErrTag) {
+		// (the longest tag wins: "…-slot1" is a prefix of "…-slot13")
+		if call.ErrTag != "" && strings.Contains(st.Message(), call.ErrTag) && (from == nil || len(call.ErrTag) > len(from.ErrTag)) {
 			from = call
 		}
 	}
@@ -574,6 +578,21 @@ func (w *c12World) exec(op *c12Op) {
 			d := w.dg(r.Obj, r.Inst)
 			sb.Add(d)
 			asked[d] = true
+		}
+		if op.Cancel > 0 && w.sched != nil {
+			// the caller's own context ends while shards may still be busy: a
+			// shard's error caused by that is an error of the call all the
+			// same, never a successful partial answer
+			var cancel context.CancelFunc
+			ctx, cancel = context.WithCancel(ctx)
+			n := op.Cancel
+			w.sched.Go("canceller", func() {
+				for i := 0; i < n; i++ {
+					rt.Yield("cancel-delay")
+				}
+				cancel()
+			})
+			c.Count("fault_caller_cancelled", 1)
 		}
 		missing, err := e.BA.FindMissing(ctx, sb.Build())
 		if c.Failed() {
@@ -764,6 +783,9 @@ func (w *c12World) drawOp(t *sim.Tape, e *c12Epoch) *c12Op {
 		n := 1 + t.Choose(2*len(w.objs))
 		for i := 0; i < n; i++ {
 			op.Set = append(op.Set, c12Ref{w.objs[t.Choose(len(w.objs))], c12Instances[t.Pick(4, 2, 1, 1)]})
+		}
+		if w.faultsOn && t.Chance(1, 4) {
+			op.Cancel = 1 + t.Choose(12)
 		}
 	}
 	w.drawFaults(t, e, op)
